@@ -161,6 +161,15 @@ def place_str(place):
     return "_%d%s" % (place["l"], "".join(proj_names(place)))
 
 
+def callee_name(c):
+    """Resolved callee path; provided trait methods (e.g. PartialEq::ne) get their Self type spelled out."""
+    p = c["path"]
+    tr = c.get("trait")
+    if tr and p.startswith(tr + "::") and c.get("gargs"):
+        return "<%s as %s>::%s" % (c["gargs"][0].lstrip("&"), tr, p.split("::")[-1])
+    return p
+
+
 # calls that only re-borrow their argument (looked through by access paths)
 TRANSPARENT = ("::Deref>::deref", "::DerefMut>::deref_mut", "::AsRef<T>>::as_ref", "::AsRef<std::path::Path>>::as_ref",
                "::Borrow<T>>::borrow", "PathBuf::as_path", "String::as_str", "::AsRef<str>>::as_ref", "::AsMut<T>>::as_mut")
@@ -437,7 +446,7 @@ class Fn:
         d = ds[0]
         if d[0] == "call":
             t = d[2]
-            name = t["callee"]["path"] if "callee" in t else "<indirect>"
+            name = callee_name(t["callee"]) if "callee" in t else "<indirect>"
             args = tuple(self.apath(a, depth - 1) for a in t["args"])
             if len(args) == 1 and name.endswith(TRANSPARENT):
                 return (args[0][0], args[0][1] + tuple(projs))
